@@ -418,8 +418,10 @@ class PolyInterp:
                         self.epoch = self.epoch_ctr
                 else:
                     self.mem = {}
+            self.enter_block(bid, rp)
             for inst in b["insts"]:
                 self.step(inst, bid, reach, rets)
+            self.leave_block(bid)
             self.mem_out[bid] = dict(self.mem)
             self.epoch_out[bid] = self.epoch
         if len(rets) == 1:
@@ -427,6 +429,12 @@ class PolyInterp:
         elif rets:
             self.ret = rets[0] if all(r == rets[0] for r in rets) else self.fn_atom("RETJOIN", *rets)
         return self.ret
+
+    def enter_block(self, bid, preds):
+        pass
+
+    def leave_block(self, bid):
+        pass
 
     def step(self, inst, bid, reach, rets):
         op = inst["op"]
